@@ -126,6 +126,19 @@ impl SemanticState {
             })
             .collect::<anyhow::Result<Vec<_>>>()?;
 
+        for (index, extern_value) in extern_values.iter().enumerate() {
+            if extern_values[..index]
+                .iter()
+                .any(|ev| ev.name == extern_value.name)
+            {
+                anyhow::bail!(
+                    "extern value `{}` is defined more than once in module `{}`",
+                    extern_value.name,
+                    path
+                );
+            }
+        }
+
         self.modules.insert(
             path.clone(),
             Module::new(
@@ -139,6 +152,7 @@ impl SemanticState {
 
         for definition in &module.definitions {
             let new_path = path.join(definition.name.as_str().into());
+            self.ensure_not_defined(&new_path)?;
             self.add_item(ItemDefinition {
                 visibility: definition.visibility.into(),
                 path: new_path,
@@ -180,6 +194,7 @@ impl SemanticState {
             })?;
 
             let extern_path = path.join(extern_path.as_str().into());
+            self.ensure_not_defined(&extern_path)?;
 
             self.add_item(ItemDefinition {
                 visibility: Visibility::Public,
@@ -196,7 +211,25 @@ impl SemanticState {
         Ok(())
     }
 
+    /// Fails if an item has already been registered under this path.
+    fn ensure_not_defined(&self, path: &ItemPath) -> anyhow::Result<()> {
+        if self.type_registry.get(path).is_some() {
+            anyhow::bail!("`{path}` is defined more than once");
+        }
+        Ok(())
+    }
+
     pub fn add_item(&mut self, item_definition: ItemDefinition) -> anyhow::Result<()> {
+        // Generated items (vftable types) are registered again on every attempt to build
+        // their owner, which is fine; anything else under the same path is a conflict.
+        if let Some(existing) = self.type_registry.get(&item_definition.path) {
+            if *existing != item_definition {
+                anyhow::bail!(
+                    "`{}` is defined more than once (a generated item conflicts with another definition of the same name)",
+                    item_definition.path
+                );
+            }
+        }
         let parent_path = &item_definition.path.parent().with_context(|| {
             format!(
                 "failed to get parent path for type `{}`",
